@@ -1454,6 +1454,18 @@ class Interp:
             r = self.call_hook(self, dotted, args, kwargs, e)
             if r is not NotImplemented:
                 return r
+        # <table>.get(key, default) on a table whose keys are known (the constants the parameter code hands over): the entry when the key is
+        # one of them, the default otherwise - a key nobody writes silently takes the default
+        if isinstance(fnode, ast.Attribute) and fnode.attr == "get" and 1 <= len(args) <= 2 and not kwargs and isinstance(args[0], str) \
+                and getattr(self, "path_keys", None):
+            try:
+                recv = self.eval(fnode.value, env)
+            except Unsupported:
+                recv = None
+            if isinstance(recv, Path) and recv.idx is None and recv.parts in self.path_keys:
+                if args[0] in self.path_keys[recv.parts]:
+                    return self.getitem(recv, args[0], e) if hasattr(self, "getitem") else Path(recv.parts + (args[0],), None)
+                return args[1] if len(args) == 2 else None
         # builtins / library by dotted name
         if dotted == "LpVariable" or dotted == "pulp.LpVariable":
             name = kwargs.get("name", args[0] if args else None)
